@@ -56,7 +56,12 @@ fn main() {
         let label = cfg.label.clone();
         let t0 = std::time::Instant::now();
         let model = match CfModel::new(cfg.clone(), Mode::Classes, true) {
-            Ok(m) => m,
+            Ok(mut m) => {
+                m.with_union = true;
+                // one-step look-ahead from every duplicate arrival: quick = the kick-budget-1 configurations, thorough = budgets <= 2
+                m.lookahead = cfg.budget.map_or(false, |b| b <= if std::env::args().any(|a| a == "thorough") { 2 } else { 1 }) && cfg.bucketsize * cfg.n_buckets <= 6;
+                m
+            }
             Err(e) => return Err((label, e)),
         };
         let ex = cuckoo::explore(&model, false, 5_000_000, 1);
